@@ -679,6 +679,50 @@ func ruleSecretWhole(c *Checker) {
 		}
 		c.decide(okk, "HSK-SIB", "secret|NewBrontideMachine stretches ConnData.PassphraseEntropy() and hands it to the handshake", nbm.Pos(), "stretchPassphrase(cfg.ConnData.PassphraseEntropy()) -> newHandshakeState",
 			"the handshake state does not receive the stretched passphrase entropy of the connection data")
+		// ... whenever the pattern that uses it (XX: the `me` token) is run: the stretch is decided by the
+		// pattern name and by nothing else (a machine running XX without the secret masks with the zero
+		// scalar, i.e. not at all)
+		for _, ci := range findCalls(nbm, func(ci ssa.CallInstruction) bool { return calleeNameIsCI(ci, "stretchPassphrase") }) {
+			facts := factsAt(ci.Block())
+			byPattern, other := false, ""
+			for _, f := range facts {
+				bo, ok := f.Cond.(*ssa.BinOp)
+				if !ok {
+					other = w.canonFB(f.Cond)
+					continue
+				}
+				isName := func(v ssa.Value) bool {
+					u, ok := unwrapLoadAlloc(v).(*ssa.UnOp)
+					if !ok || u.Op != token.MUL {
+						return false
+					}
+					fa, ok := u.X.(*ssa.FieldAddr)
+					return ok && structFieldOf(fa).Name() == "Name" && namedOf(deref(fa.X.Type())) != nil && namedOf(deref(fa.X.Type())).Obj().Name() == "HandshakePattern"
+				}
+				isXX := func(v ssa.Value) bool {
+					k, ok := v.(*ssa.Const)
+					xx := w.Const("mailbox.XX")
+					return ok && xx != nil && k.Value != nil && k.Value.Kind() == constant.String && constant.Compare(k.Value, token.EQL, xx.Val())
+				}
+				switch {
+				case factRel(f, isName, isXX) == "==":
+					byPattern = true
+				case isNilConst(bo.Y) || isNilConst(bo.X):
+					// earlier error checks (err == nil legs)
+					if _, isErr := bo.X.Type().Underlying().(*types.Interface); !isErr {
+						other = w.canonFB(f.Cond)
+					}
+				default:
+					// version range tests etc. that dominate by returning on the other leg are fine;
+					// anything that *selects* the stretch is not
+					if ci.Block().Idom() != nil && !blockReturnsError(otherSucc(f, ci.Block()), 0) {
+						other = w.canonFB(f.Cond)
+					}
+				}
+			}
+			c.decide(byPattern && other == "", "HSK-SIB", "secret|stretched exactly when the pattern is XX", instrPos(ci), "the stretch is guarded by HandshakePattern.Name == XX only",
+				"the passphrase is not stretched exactly when the XX pattern is run (guarded by pattern name: "+fmt.Sprint(byPattern)+", other condition: "+other+"): a machine can run XX with an empty secret, which masks the ephemeral key with nothing")
+		}
 	}
 	// the handshake state keeps exactly what it was given
 	if nhs := mboxFunc(c, "mailbox.newHandshakeState"); nhs != nil {
@@ -1655,4 +1699,24 @@ func rulePublishOrder(c *Checker, rule string) {
 		c.decide(bad == "" && len(setRemote) == 1, rule, "DoHandshake|nothing can fail between split and SetRemote", dh.Pos(), "for version >= 2 every path from split reaches SetRemote before any return",
 			"DoHandshake can return at "+bad+" after the wire handshake completed but before SetRemote: the peer has stored our key and moved to the key-derived rendezvous, this side stays on the passphrase")
 	}
+}
+
+// otherSucc returns, for a fact established on the way to block b, the successor of the
+// deciding block that does NOT lead to b (nil if not determinable).
+func otherSucc(f Fact, b *ssa.BasicBlock) *ssa.BasicBlock {
+	for a := b.Idom(); a != nil; a = a.Idom() {
+		if len(a.Instrs) == 0 {
+			continue
+		}
+		iff, ok := a.Instrs[len(a.Instrs)-1].(*ssa.If)
+		if !ok || iff.Cond != f.Cond {
+			continue
+		}
+		for _, s := range a.Succs {
+			if !(s == b || s.Dominates(b)) {
+				return s
+			}
+		}
+	}
+	return b
 }
